@@ -319,9 +319,7 @@ class Sources:
         self.dir = workdir
         self.paths = {}
         self.fp = {}        # (kind, fingerprint bytes) -> sid            nuclide payloads
-        self.meta_fp = {}   # (kind, payload) -> meta id
-        self.vel_fp = {}
-        self.bytes = {}
+        self.meta_fp = {}   # (kind, payload) -> metadata variant of the descriptor
         os.makedirs(workdir, exist_ok=True)
 
     def key(self, desc, sid):
@@ -349,7 +347,6 @@ class Sources:
             if old != sid:
                 raise MachineryError("generator: sources %d and %d are indistinguishable on label %d" % (old, sid, li))
         mp = file_md_payload(getattr(lib, MDNAME[kind]))
-        gs = (desc.get("ngs", 0), desc.get("ggs", 0))
         self.meta_fp[(kind, mp)] = desc.get("meta", 1)
 
     def load(self, desc, sid):
@@ -387,7 +384,8 @@ def sid_of_path(fn):
 
 
 def project_library(lib, srcs, nsrc, labels):
-    """Observable content of one library, in the vocabulary of LibraryMerge (ids, not values)."""
+    """Observable content of one library, in the vocabulary of LibraryMerge: integers (ids, 0/1 flags) and sequences of
+    integers only; what cannot be named is a negative integer (-1 = matches nothing known / inconsistent)."""
     if not lib.__dict__:
         return {"alive": False}
     out = {"alive": True}
@@ -402,7 +400,7 @@ def project_library(lib, srcs, nsrc, labels):
     vel = getattr(lib, "_neutronVelocity", None)
     out["vel"] = 0 if vel is None else (_match(vel, {s: velocity(s, out["ngs"]) for s in range(1, nsrc + 1)}) if out["ngs"] > 0 else -1)
     hd = lib.pmatrxMetadata["hasDoseConversionFactor"]
-    out["pdose"] = 0 if hd is None else 2 if hd is True else 1 if hd is False else repr(hd)
+    out["pdose"] = 0 if hd is None else 2 if hd is True else 1 if hd is False else -1
     out["meta"] = {}
     out["files"] = {}
     for k in KINDS:
@@ -412,28 +410,28 @@ def project_library(lib, srcs, nsrc, labels):
     imd = lib.isotxsMetadata
     chi = imd["chi"]
     flag = imd["fileWideChiFlag"]
-    out["fw"] = chi is not None
+    out["fw"] = 1 if chi is not None else 0
     if (chi is not None) != (flag == 1) and len(imd):
-        out["fw"] = "chi %s but fileWideChiFlag %r" % ("present" if chi is not None else "absent", flag)
+        out["fw"] = -1 if chi is not None else -2      # chi present but fileWideChiFlag != 1  /  absent but the flag says 1
     listed = list(lib.nuclideLabels)
     held = set(lib._nuclides)
     lab_ix = {label_of(li): li for li in labels}
     if len(set(listed)) != len(listed) or set(listed) != held:
-        out["labels"] = {"inconsistent": [listed, sorted(held)]}
+        out["labels"] = [-1]                          # nuclideLabels and the nuclide table disagree (or a label is listed twice)
     else:
-        out["labels"] = sorted(lab_ix.get(x, x) for x in listed)
+        out["labels"] = sorted(lab_ix.get(x, -2) for x in listed)     # -2: a label no source has
     nucs = []
     for li in labels:
         lab = label_of(li)
         if lab not in held:
-            nucs.append({"n": 0, "g": 0, "p": 0, "cf": False, "owner": False})
+            nucs.append({"n": 0, "g": 0, "p": 0, "cf": 0, "owner": 0})
             continue
         nuc = lib[lab]
         cf = nuc.isotxsMetadata["chiFlag"]
         nucs.append({
             "n": srcs.whose(nuc, "n", li), "g": srcs.whose(nuc, "g", li), "p": srcs.whose(nuc, "p", li),
-            "cf": bool(cf) if cf in (None, 0, 1) else repr(cf),
-            "owner": nuc.container is lib,
+            "cf": int(bool(cf)) if cf in (None, 0, 1) else -1,
+            "owner": 1 if nuc.container is lib else 0,
         })
     out["nucs"] = nucs
     return out
